@@ -176,7 +176,7 @@ func checkC24(p *Prog, r *Report) {
 	rule = "E5.file-owner-recorded"
 	{
 		okk := false
-		eachInstr(ct, false, func(_ *ssa.Function, i ssa.Instruction) {
+		eachInstrS(ct, func(_ *ssa.Function, i ssa.Instruction) {
 			mu, ok := i.(*ssa.MapUpdate)
 			if !ok {
 				return
@@ -195,7 +195,7 @@ func checkC24(p *Prog, r *Report) {
 		}
 		r.check(fwd, rule, "HasAbsoluteSource delegates to HasSource", p.pos(has.Pos()), fnName(has), "calls HasSource", "HasAbsoluteSource no longer delegates to HasSource")
 		n := 0
-		eachInstr(hs, false, func(_ *ssa.Function, i ssa.Instruction) {
+		eachInstrS(hs, func(_ *ssa.Function, i ssa.Instruction) {
 			c, ok := i.(*ssa.Call)
 			if !ok || !isCallTo(c, "strings.HasPrefix") {
 				return
@@ -206,7 +206,7 @@ func checkC24(p *Prog, r *Report) {
 		})
 		// equality alternative must exist too (file sources)
 		eq := false
-		eachInstr(hs, false, func(_ *ssa.Function, i ssa.Instruction) {
+		eachInstrS(hs, func(_ *ssa.Function, i ssa.Instruction) {
 			if b, ok := i.(*ssa.BinOp); ok && b.Op == token.EQL {
 				if _, isP := b.Y.(*ssa.Parameter); isP {
 					eq = true
